@@ -486,6 +486,9 @@ def run(tier, seed):
     # model's for all inputs; a failure is reported when the check finishes unless a stage below finds a
     # concrete failing input
     gen_tie.gate(chk, ['after_attempt', 'attempt_loop', 'retry_policy', 'forced_retries'], gate)
+    # glue code (DESIGN 11.7, fifth round): the retry policy of the selected profile -- get_profile + the accessor
+    # EvaluatableProfile::retries, regenerated from the source: a profile-level value wins for every name but "default"
+    gen_tie.gate(chk, ['get_profile', 'profile_retries'], gate, family="glue")
     binary, err = vlib.build_harness()
     if binary is None:
         chk.violation("broken-obligation", "harness-build", dict(error=err), no_input=True)
